@@ -7,7 +7,12 @@ let table_of_tok t =
   List.map (fun e -> match String.split_on_char ':' e with
     | [k; v] -> (List.map z_of_hex (String.split_on_char ',' k), z_of_hex v)
     | _ -> failwith "oracle entry") (split ';' t)
-let oracle t = table_oracle (table_of_tok t)
+(* a query outside the table (the model hashes something the code did not hash) is flagged: the model output gets the
+   prefix "oracle-miss:" and therefore disagrees with whatever the implementation returned *)
+let missed = ref false
+let oracle t = let tbl = table_of_tok t in
+  fun q -> let v = table_oracle tbl q in (if v = Zneg XH then missed := true); v
+let flag (m, i) = if !missed then (missed := false; ("oracle-miss:" ^ m, i)) else (m, i)
 let map_of_tok t = List.map (fun e -> match String.split_on_char ',' e with [a; b] -> (z_of_hex a, z_of_hex b) | _ -> failwith "map entry") (split ';' t)
 let hz = hex_of_z
 let z = z_of_hex
@@ -22,7 +27,7 @@ let ctx = function
   | p :: q :: g :: hb :: h :: tb :: tt :: rest ->
     ({ g = { gp = z p; gq = z q; gg = z g }; hb = z hb; h = z h; th = { ft_base = z tb; ft_t = nat_of_int (int_of_string ("0x" ^ tt)) } }, rest)
   | _ -> failwith "ctx"
-let reg kind f = register kind (fun toks -> let (c, rest) = ctx toks in f c rest)
+let reg kind f = register kind (fun toks -> missed := false; let (c, rest) = ctx toks in flag (f c rest))
 
 let () =
   reg "cpp" (fun c -> function [x; y; g2; h2; al; raw; fp; tbl; out] ->
